@@ -133,6 +133,11 @@ class LiquidError(Exception):
 class LiquidInterrupt(Exception):  # noqa: N818
     """Loop interrupt exception."""
 
+    def __init__(self, *args: object, token: TokenT | None = None):
+        super().__init__(*args)
+        # The tag that interrupts, for when there is no loop to interrupt.
+        self.token = token
+
 
 class StopRender(Exception):  # noqa: N818
     """Template inheritance interrupt.
